@@ -6,6 +6,7 @@ From Coq Require String.
 Import String.StringSyntax.
 From DT Require Import PyStr Sexp PyVal TyExpr Extracted PureUtils Defaults PyAst IR Fill C17Spec.
 From DT Require Import PyStrFacts SplitFacts DefaultsFacts DocEmit DocEmitFacts C03DocLinkDefs.
+From DT Require PureUtilsFacts.
 Import ListNotations.
 
 (* ------------------------------------------------------------------ *)
@@ -54,9 +55,7 @@ Lemma multiline_noquote_one : forall c r l,
 Proof.
   intros c r l Hnl Hl Hm. unfold multiline_noquote.
   rewrite (splitlines_one c r Hnl). cbn [map join].
-  unfold rstrip_chars.
-  apply (rstrip_by_app (fun c0 => mem_c c0 (L " " ++ [nl; ch 92])) (c :: r) _ l);
-    [reflexivity|exact Hl|exact Hm].
+  change (L " \" ++ [nl]) with [sp; ch 92; nl]. apply PureUtilsFacts.drop_last3_app.
 Qed.
 
 Lemma replace_aux_no_char : forall x b fuel s,
